@@ -85,9 +85,29 @@ def optsOf (s : String) : Option Opts :=
     else none
   | _ => none
 
-def pStreams : P (List (List Element)) := do
+/-- streams per goroutine, then (more than one goroutine) `o nruns (g len)*`: the goroutine of every callback
+entry, in the order the callback was entered, run-length coded -/
+def pStreams : P (List (List Element) × Option (List (Nat × Nat))) := do
   let g ← pNat
-  many g (counted pElement)
+  let ss ← many g (counted pElement)
+  let ts ← get
+  match ts with
+  | "o" :: _ => do
+    let _ ← tok
+    let runs ← counted (do let a ← pNat; let b ← pNat; pure (a, b))
+    pure (ss, some runs)
+  | _ => pure (ss, none)
+
+/-- the order in which the callback saw the elements: take `len` elements from stream `g`, run by run;
+`none` when the runs do not use up the streams exactly -/
+def globalOrder : List (List Element) → List (Nat × Nat) → Option (List Element)
+  | streams, [] => if streams.all List.isEmpty then some [] else none
+  | streams, (g, n) :: runs =>
+    match streams[g]? with
+    | none => none
+    | some s =>
+      if s.length < n then none else
+      (globalOrder (setAt streams g (s.drop n)) runs).map (s.take n ++ ·)
 
 def step (st : St) (op impl : String) : St × Verdict :=
   match words op with
@@ -112,7 +132,7 @@ def step (st : St) (op impl : String) : St × Verdict :=
       | status :: rest =>
         match parseAll pStreams rest with
         | none => (st, .bad)
-        | some streams =>
+        | some (streams, runs) =>
           if status != "ok" && status != "err" then (st, .bad) else
           -- the blocks the model writer makes for this input decide the chunk sizes
           let pred := status == "ok" && streams.length == g &&
@@ -124,7 +144,21 @@ def step (st : St) (op impl : String) : St × Verdict :=
             let modelOK := match st.modelChunks with
               | some cs => assignable (fun (a b : Element) => a == b) cs streams
               | none => false
-            (st, if modelOK then .ok else .diff ("reader-model: " ++ rRes (readAll {} st.blocks)))
+            if !modelOK then (st, .diff ("reader-model: " ++ rRes (readAll {} st.blocks))) else
+            -- the statement as written: the callback sees the written order. The streams above are the
+            -- strongest order the code guarantees; a callback order that is not the written order is the
+            -- known class `crossBlockClass` (more than one goroutine and more than one block), anything else
+            -- is reported unclassified
+            match runs with
+            | none => (st, if g ≤ 1 then .ok else .bad)
+            | some runs =>
+              match globalOrder streams runs with
+              | none => (st, .bad)
+              | some glob =>
+                if isPrefixBy eqTol st.elems glob && glob.length == st.elems.length then (st, .ok)
+                else if crossBlockClass g st.blocks.length then
+                  (st, .propfail "total-order class=cores-gt1-cross-block-order")
+                else (st, .propfail "total-order")
       | [] => (st, .bad)
   | "rawread" :: o :: rest =>
     match optsOf o, parseAll pBlock rest with
